@@ -23,6 +23,7 @@ import (
 	"math/rand"
 	"os"
 	"path/filepath"
+	"runtime"
 	"sort"
 	"strings"
 	"time"
@@ -80,10 +81,30 @@ type runOut struct {
 	panic  string
 }
 
+// panicSite returns the innermost livesim2 function on the stack of a recovered panic.
+func panicSite() string {
+	pcs := make([]uintptr, 64)
+	n := runtime.Callers(3, pcs)
+	frames := runtime.CallersFrames(pcs[:n])
+	for {
+		fr, more := frames.Next()
+		if strings.Contains(fr.Function, "Dash-Industry-Forum/livesim2") && !strings.Contains(fr.Function, "VerifC15") {
+			f := fr.Function
+			if i := strings.LastIndex(f, "/"); i >= 0 {
+				f = f[i+1:]
+			}
+			return f
+		}
+		if !more {
+			return "?"
+		}
+	}
+}
+
 func discover(fsys fs.FS, dir string, write bool) (out runOut) {
 	defer func() {
 		if r := recover(); r != nil {
-			out.panic = fmt.Sprint(r)
+			out.panic = panicSite() + ": " + fmt.Sprint(r)
 		}
 	}()
 	out.assets, out.err = app.VerifC15Discover(fsys, dir, write, quiet)
@@ -93,7 +114,7 @@ func discover(fsys fs.FS, dir string, write bool) (out runOut) {
 func loadOnly(fsys fs.FS, dir string, write bool, paths []string) (out runOut) {
 	defer func() {
 		if r := recover(); r != nil {
-			out.panic = fmt.Sprint(r)
+			out.panic = panicSite() + ": " + fmt.Sprint(r)
 		}
 	}()
 	out.assets, _ = app.VerifC15LoadAssetOnly(fsys, dir, write, quiet, paths)
@@ -353,8 +374,8 @@ func firstWords(s string) string {
 	if i := strings.Index(s, "\n"); i >= 0 {
 		s = s[:i]
 	}
-	if len(s) > 60 {
-		s = s[:60]
+	if len(s) > 120 {
+		s = s[:120]
 	}
 	return s
 }
